@@ -12,8 +12,11 @@ MCDict == << O(8192,0,TRUE,TRUE,"int",<<17>>), O(8193,0,TRUE,TRUE,"int",<<1,2>>)
           \o [i \in 1..Len(StrSizes) |-> O(8224, i, TRUE, FALSE, "str", Str(StrSizes[i]))]
 DomP(i) == NInt + i
 StrP(i) == NInt + Len(DomSizes) + i
-Dl(p, mode, L, sbit, loss, seed) == [t |-> "dl", p |-> p, mode |-> mode, L |-> L, sbit |-> sbit, loss |-> loss, bs |-> 0, plan |-> <<>>, seed |-> seed]
-Ul(p, mode, bs, plan) == [t |-> "ul", p |-> p, mode |-> mode, L |-> 0, sbit |-> FALSE, loss |-> <<0,0>>, bs |-> bs, plan |-> plan, seed |-> 0]
+Dl(p, mode, L, sbit, loss, seed) == [t |-> "dl", p |-> p, mode |-> mode, L |-> L, sbit |-> sbit, loss |-> loss, bs |-> 0, plan |-> <<>>, seed |-> seed, pre |-> 0]
+Ul(p, mode, bs, plan) == [t |-> "ul", p |-> p, mode |-> mode, L |-> 0, sbit |-> FALSE, loss |-> <<0,0>>, bs |-> bs, plan |-> plan, seed |-> 0, pre |-> 0]
+\* the same scenarios behind an abandoned segmented download / upload of the 21-byte domain
+WithPre(S, k) == {[sc EXCEPT !.pre = k] : sc \in S}
+MCPreObj == DomP(10)
 Bool == {TRUE, FALSE}
 DlInts == {Dl(p, "exp", Len(MCDict[p].data), sb, <<0,0>>, 3) : p \in {1,2,3,5}, sb \in Bool}
             \cup {Dl(p, m, Len(MCDict[p].data), sb, <<0,0>>, 5) : p \in {1,2,3,5}, sb \in Bool, m \in {"seg", "blk"}}
@@ -28,6 +31,10 @@ AllDom == 1..Len(DomSizes)
 SmallDom == {i \in AllDom : DomSizes[i] <= 43}
 ScenDlQ == DlInts \cup DlDomExp \cup DlDomFull(AllDom \ {23}, {"seg"}, {<<0,0>>}) \cup DlDomFull(AllDom \ {23}, {"blk"}, {<<0,0>>, <<1,2>>})
            \cup DlDomFull({9, 17, 18, 19, 21, 22}, {"blk"}, LossQ) \cup DlDomPart({3, 6, 9, 17, 22}, {"seg", "blk"})
+ScenDlPre == WithPre(DlInts \cup DlDomExp \cup DlDomFull({1, 3, 4, 6, 8, 9, 10, 12, 17}, {"seg", "blk"}, {<<0,0>>, <<1,2>>}), 1)
+             \cup WithPre(DlDomFull({3, 4, 6, 8, 9, 10, 12, 17}, {"seg", "blk"}, {<<0,0>>}), 2)
+ScenUlPre == WithPre(UlAll({1, 3, 6, 9, 10, 12, 17}, {2, 5, 9}) \cup UlBlkSet({3, 6, 9, 10, 12}, {5}, {3, 127}, {<<>>, << <<1, 127>> >>}), 1)
+             \cup WithPre(UlAll({1, 3, 6, 9, 10, 12}, {2, 5}) \cup UlBlkSet({6, 10, 12}, {5}, {3, 127}, {<<>>, << <<1, 127>> >>}), 2)
 ScenDlT == DlInts \cup DlDomExp \cup DlDomFull(AllDom, {"seg"}, {<<0,0>>}) \cup DlDomFull(AllDom, {"blk"}, LossQ \cup {<<3,5>>, <<1,125>>, <<2,126>>})
            \cup DlDomPart(AllDom, {"seg", "blk"})
 ScenUlQ == UlAll(AllDom \ {23}, 1..Len(StrSizes)) \cup UlBlkSet({1, 3, 4, 6, 9, 10, 12}, {2, 5}, {1, 2, 3, 7, 64, 127}, PlansQ)
@@ -35,4 +42,9 @@ ScenUlQ == UlAll(AllDom \ {23}, 1..Len(StrSizes)) \cup UlBlkSet({1, 3, 4, 6, 9, 
 ScenUlT == UlAll(AllDom, 1..Len(StrSizes)) \cup UlBlkSet(AllDom \ {23}, 1..Len(StrSizes), {1, 2, 3, 7, 64, 126, 127}, PlansQ) \cup UlBlkSet({23}, {}, {7, 127}, PlansQ)
 ScenQ == ScenDlQ \cup ScenUlQ
 ScenTiny == DlInts \cup DlDomExp \cup DlDomFull(1..12, {"seg", "blk"}, {<<0,0>>}) \cup UlAll(1..12, 1..8) \cup UlBlkSet({1,3,6,9}, {2,5}, {1,2,3,7}, PlansQ)
+Sc_C02_scen == ScenDlQ \cup ScenDlPre
+Sc_C02_scen_t == ScenDlT \cup ScenDlPre
+Sc_C03_scen == ScenUlQ \cup ScenUlPre
+Sc_C03_scen_t == ScenUlT \cup ScenUlPre
+Sc_C02_tiny == ScenTiny
 ==============================================================================
